@@ -314,4 +314,17 @@ def isUuidLike : PyVal → Bool
     | .ok n => removeHyphens (uuidStr n) == pyLower (uuidUndecorate s)
   | _ => false
 
+/-! ### vocabulary of the theorem statements (not used by the executable functions above) -/
+
+/-- the ASCII decimal digits -/
+def decChars : List Char := ['0', '1', '2', '3', '4', '5', '6', '7', '8', '9']
+
+/-- one or more groups of decimal digits joined by single underscores -/
+def DigitGroups (body : List Char) : Prop :=
+  body ≠ [] ∧ (∀ c ∈ body, c ∈ decChars ∨ c = '_') ∧
+  body.head? ≠ some '_' ∧ body.getLast? ≠ some '_' ∧ ∀ l r, body ≠ l ++ '_' :: '_' :: r
+
+/-- the decimal value of the digits of a body, underscores dropped -/
+def decValue (body : List Char) : Nat := Nat.ofDigitChars 10 (body.filter (fun c => c != '_')) 0
+
 end Oslo.Scalars
